@@ -1,13 +1,87 @@
 S = "spatial_orbitals.py"
 E = "expr_container.py"
+
+_COPY = ("                        complete_variant = {\n                            sp: indices.copy()\n"
+         "                            for sp, indices in idx_map.items()\n                        }")
+_FOLD_OLD = '''        combinations = [{"a": set(), "b": set()}]
+        for tensor_spin_idx_maps in term_spin_idx_maps:
+            old_combinations = combinations.copy()
+            combinations.clear()
+            for idx_map, addition in \\
+                    product(old_combinations, tensor_spin_idx_maps):
+                # ensure that there are no contradictions
+                if idx_map["a"] & addition["b"] or \\
+                        idx_map["b"] & addition["a"]:
+                    continue
+                combined_map = {"a": idx_map["a"] | addition["a"],
+                                "b": idx_map["b"] | addition["b"]}
+                # we only need unique variants -> remove duplicates
+                if any(d == combined_map for d in combinations):
+                    continue
+                combinations.append(combined_map)
+            # it was not possible to find a single valid combination
+            # -> the term should vanish for the given target indices
+            if not combinations:
+                term_vanishes = True
+                break
+        if term_vanishes:
+            continue
+'''
+_HVC_OLD = '''        addition = {"a": tuple(idx for idx in idx_map["a"]
+                               if idx not in variant["a"]),
+                    "b": tuple(idx for idx in idx_map["b"]
+                               if idx not in variant["b"])}
+        variant["a"].update(idx_map["a"])
+        variant["b"].update(idx_map["b"])
+        if len(tensor_idx_maps) == current_pos + 1:  # we are done!!
+            return True
+        # recurse further and try to complete
+        if _has_valid_combination(tensor_idx_maps, current_pos+1, variant):
+            return True
+        # could not complete -> revert the addition and continue looping
+        variant["a"].difference_update(addition["a"])
+        variant["b"].difference_update(addition["b"])
+'''
+_ERI_IFS = '''            if p.spin == r.spin and q.spin == s.spin:
+                res += SymmetricTensor(tensor_names.coulomb, (p, r), (q, s), 1)
+                expanded_coulomb = True
+            if p.spin == s.spin and q.spin == r.spin:
+                res -= SymmetricTensor(tensor_names.coulomb, (p, s), (q, r), 1)
+                expanded_coulomb = True
+'''
+_FILTER_OLD = '''                for spin, idx in zip(block, obj_idx):
+                    if idx in target_idx_spin_map and \\
+                            spin != target_idx_spin_map[idx]:
+                        valid = False
+                        break
+                    else:
+                        idx_map[spin].add(idx)
+'''
+_RESTR_OLD = '''        idx = set(term.idx)
+        beta_idx = [i for i in idx if i.spin == "b"]
+        if not beta_idx:
+            restricted_expr += term.sympy
+            continue
+        new_idx = get_symbols([i.name for i in beta_idx], "a"*len(beta_idx))
+        sub = {}
+        for old, new in zip(beta_idx, new_idx):
+            # conststruct the alpha index
+            if new in idx:
+                raise RuntimeError("It is not safe to replace the beta index "
+                                   f"{old} with the corresponding alpha index,"
+                                   " because the index with alpha spin is "
+                                   f"already used in the term: {term}.")
+            sub[old] = new
+        restricted_expr += term.sympy.subs(order_substitutions(sub))
+'''
+
 WITNESSES = [
-    dict(id="c15-f2-revert", prop="C15", file=S, expect="R15a",
-         old="                        complete_variant = {\n                            sp: indices.copy()\n                            for sp, indices in idx_map.items()\n                        }",
+    # ------------------------------------------------------------------ breaking (kept from the text rules)
+    dict(id="c15-f2-revert", prop="C15", file=S, expect=["R15a", "R15f"], old=_COPY,
          new="                        complete_variant = idx_map.copy()"),
-    dict(id="c15-f2-dict-ctor", prop="C15", file=S, expect="R15a",
-         old="                        complete_variant = {\n                            sp: indices.copy()\n                            for sp, indices in idx_map.items()\n                        }",
+    dict(id="c15-f2-dict-ctor", prop="C15", file=S, expect=["R15a", "R15f"], old=_COPY,
          new="                        complete_variant = dict(idx_map)"),
-    dict(id="c15-f3-revert", prop="C15", file=S, expect="R15b",
+    dict(id="c15-f3-revert", prop="C15", file=S, expect=["R15b", "R15f"],
          old="        combinations = [{\"a\": set(), \"b\": set()}]\n        for tensor_spin_idx_maps in term_spin_idx_maps:\n",
          new="        combinations = []\n        for tensor_spin_idx_maps in term_spin_idx_maps:\n            if not combinations:  # initialize combinations\n                combinations.extend(tensor_spin_idx_maps)\n                continue\n"),
     dict(id="c15-coulomb-guard", prop="C15", file=E, expect="R15c",
@@ -39,7 +113,231 @@ WITNESSES = [
          old="                    if idx in target_idx_spin_map and \\\n                            spin != target_idx_spin_map[idx]:", new="                    if idx in target_idx_spin_map and \\\n                            spin == target_idx_spin_map[idx]:"),
     dict(id="c15-contradiction", prop="C15", file=S, expect="R15f",
          old='                if idx_map["a"] & addition["b"] or \\\n                        idx_map["b"] & addition["a"]:', new='                if idx_map["a"] & addition["b"] and \\\n                        idx_map["b"] & addition["a"]:'),
-    dict(id="c15-ok-copy-comprehension", prop="C15", file=S, expect=None,
-         old="                        complete_variant = {\n                            sp: indices.copy()\n                            for sp, indices in idx_map.items()\n                        }",
+    # ------------------------------------------------------------------ breaking: checks introduced with the model evaluation
+    dict(id="c15-term-idx-list", prop="C15", file=S, expect="R15f",
+         old="        term_indices = set(term.idx)", new="        term_indices = list(term.idx)"),
+    dict(id="c15-number-term-lost", prop="C15", file=S, expect="R15f",
+         old="        if not term_indices:\n            result += term\n            continue", new="        if not term_indices:\n            continue"),
+    dict(id="c15-unassigned-target-flipped", prop="C15", file=S, expect="R15f",
+         old="                        idx_map[target_idx_spin_map[idx]].add(idx)", new='                        idx_map["a"].add(idx)'),
+    dict(id="c15-dedup-lost-term", prop="C15", file=S, expect="R15f",
+         old="                if any(d == combined_map for d in combinations):\n                    continue\n                combinations.append(combined_map)",
+         new="                if combinations:\n                    continue\n                combinations.append(combined_map)"),
+    dict(id="c15-vanish-break-outer", prop="C15", file=S, expect="R15f",
+         old="            term_spin_idx_maps.append(obj_spin_idx_maps)\n        if term_vanishes:\n            continue",
+         new="            term_spin_idx_maps.append(obj_spin_idx_maps)\n        if term_vanishes:\n            break"),
+    dict(id="c15-result-target-spinless", prop="C15", file=S, expect="R15f",
+         old="    result_target = get_symbols([s.name for s in target_idx], target_spin)", new="    result_target = get_symbols([s.name for s in target_idx])"),
+    dict(id="c15-result-target-always", prop="C15", file=S, expect="R15f",
+         old="    if expr.provided_target_idx is not None:  # set target indices if necessary\n        result.set_target_idx(result_target)",
+         new="    result.set_target_idx(result_target)"),
+    dict(id="c15-assumptions-lost", prop="C15", file=S, expect="R15f",
+         old="    result = Expr(0, **expr.assumptions)\n    if expr.provided_target_idx is not None:  # set", new="    result = Expr(0)\n    if expr.provided_target_idx is not None:  # set"),
+    dict(id="c15-guard-spatial-input", prop="C15", file=S, expect="R15f",
+         old="        if any(s.spin for s in term_indices):", new="        if False:"),
+    dict(id="c15-guard-term-target", prop="C15", file=S, expect="R15f",
+         old="        if term.target != sorted_target:\n            raise ValueError(f\"Target indices of {term} {term.target} dont \"\n                             f\"match the desired target indices {target_idx}\")\n        # - ensure that no index",
+         new="        # - ensure that no index"),
+    dict(id="c15-coulomb-not-symmetric", prop="C15", file=E, expect="R15c",
+         old="                res += SymmetricTensor(tensor_names.coulomb, (p, r), (q, s), 1)", new="                res += SymmetricTensor(tensor_names.coulomb, (p, r), (q, s), 0)"),
+    dict(id="c15-coulomb-name", prop="C15", file=E, expect="R15c",
+         old="                res += SymmetricTensor(tensor_names.coulomb, (p, r), (q, s), 1)", new="                res += SymmetricTensor(tensor_names.eri, (p, r), (q, s), 1)"),
+    dict(id="c15-coulomb-sym-tensors", prop="C15", file=E, expect="R15c",
+         old="        if expanded_coulomb:\n            assumptions['sym_tensors'] = (", new="        if False:\n            assumptions['sym_tensors'] = ("),
+    dict(id="c15-coulomb-complex", prop="C15", file=E, expect="R15c",
+         old="            if self.bra_ket_sym != 1:\n                raise NotImplementedError(\"Can only expand antisymmetric ERI \"",
+         new="            if self.bra_ket_sym == 0:\n                raise NotImplementedError(\"Can only expand antisymmetric ERI \""),
+    dict(id="c15-coulomb-other-tensor", prop="C15", file=E, expect="R15c",
+         old="        if self.name == tensor_names.eri:\n            # ensure that the eri is Symmetric.", new="        if self.name in (tensor_names.eri, tensor_names.coulomb):\n            # ensure that the eri is Symmetric."),
+    dict(id="c15-delta-blocks", prop="C15", file=E, expect="R15d",
+         old='            return ("aa", "bb")', new='            return ("aa", "ab", "bb")'),
+    dict(id="c15-operator-blocks", prop="C15", file=E, expect="R15d",
+         old='            return ("a", "b")', new='            return ("a",)'),
+    dict(id="c15-itmd-blocks-lost", prop="C15", file=E, expect="R15d",
+         old="            return itmd.allowed_spin_blocks\n", new="            return None\n"),
+    dict(id="c15-t-odd-accepted", prop="C15", file=E, expect="R15d",
+         old="                if len(idx) % 2:\n                    raise ValueError(\"Expected t-amplitude to have the same \"\n                                     f\"of upper and lower indices: {self}.\")\n",
+         new=""),
+    dict(id="c15-no-blocks", prop="C15", file=E, expect="R15d",
+         old='        return tuple("".join(b) for b in product(*allowed_blocks))', new='        return tuple("".join(b) for b in zip(*allowed_blocks))'),
+    dict(id="c15-restricted-target-spins", prop="C15", file=S, expect="R15e",
+         old='        restricted_target = get_symbols(target_idx, "a" * len(target_spin))', new='        restricted_target = get_symbols(target_idx, target_spin)'),
+    dict(id="c15-expand-after-restricting", prop="C15", file=S, expect="R15e",
+         old="    if expand_eri:\n        expr.expand_antisym_eri().expand()\n    if not restricted:\n        return expr",
+         new="    if not restricted:\n        if expand_eri:\n            expr.expand_antisym_eri().expand()\n        return expr"),
+    dict(id="c15-expand-always", prop="C15", file=S, expect="R15e",
+         old="    if expand_eri:\n        expr.expand_antisym_eri().expand()", new="    expr.expand_antisym_eri().expand()"),
+    dict(id="c15-forward-spins", prop="C15", file=S, expect="R15e",
+         old="    expr = integrate_spin(expr, target_idx, target_spin)", new='    expr = integrate_spin(expr, target_idx, "a" * len(target_spin))'),
+    dict(id="c15-restricted-first-beta-only", prop="C15", file=S, expect="R15e",
+         old="        for old, new in zip(beta_idx, new_idx):\n            # conststruct the alpha index", new="        for old, new in zip(beta_idx[:1], new_idx):\n            # conststruct the alpha index"),
+    dict(id="c15-restricted-assumptions", prop="C15", file=S, expect="R15e",
+         old="    restricted_expr = Expr(0, **expr.assumptions)", new="    restricted_expr = Expr(0)"),
+    dict(id="c15-blocks-ignore-incompatible", prop="C15", file=S, expect="R15h",
+         old="                if not relevant_object_spin_idx_maps:\n                    valid_block = False\n                    break",
+         new="                if not relevant_object_spin_idx_maps:\n                    continue"),
+    dict(id="c15-blocks-no-revert", prop="C15", file=S, expect=["R15g", "R15h"],
+         old='        variant["a"].difference_update(addition["a"])\n        variant["b"].difference_update(addition["b"])\n', new=""),
+    dict(id="c15-blocks-first-term-only", prop="C15", file=S, expect="R15h",
+         old="        # blocks that have been found dont need to be checked again\n        spin_blocks_to_check = [i for i in spin_blocks_to_check\n                                if i not in blocks_to_remove]\n    return tuple(sorted(allowed_blocks))",
+         new="        # blocks that have been found dont need to be checked again\n        spin_blocks_to_check = [i for i in spin_blocks_to_check\n                                if i not in blocks_to_remove]\n        break\n    return tuple(sorted(allowed_blocks))"),
+    dict(id="c15-blocks-target-compat", prop="C15", file=S, expect="R15h",
+         old="                    if any(spin != idx_map[t_idx]\n                           for t_idx, spin in target_spin.items()\n                           if t_idx in idx_map):\n                        continue\n",
+         new=""),
+    dict(id="c15-contradiction-ignored", prop="C15", file=S, expect="R15f",
+         old='                if idx_map["a"] & addition["b"] or \\\n                        idx_map["b"] & addition["a"]:', new='                if False:'),
+    dict(id="c15-unassigned-target-both-spins", prop="C15", file=S, expect="R15f",
+         old="                    if spin is not None:  # is a target index -> just add", new="                    if False:"),
+    dict(id="c15-result-overwritten", prop="C15", file=S, expect="R15f",
+         old="        result += simplify(contribution)", new="        result = simplify(contribution)"),
+    dict(id="c15-blocks-search-ignored", prop="C15", file=S, expect="R15h",
+         old='            if not _has_valid_combination(relevant_term_spin_idx_maps, 0,\n                                          spin_idx_map):\n                continue',
+         new='            _has_valid_combination(relevant_term_spin_idx_maps, 0, spin_idx_map)'),
+    dict(id="c15-itmd-blocks-targets", prop="C15", file="intermediates.py", expect="R15h",
+         old="        return allowed_spin_blocks(itmd.expand(), target_idx)", new="        return allowed_spin_blocks(itmd.expand(), target_idx[::-1])"),
+    # ------------------------------------------------------------------ behaviour preserving
+    dict(id="c15-ok-copy-comprehension", prop="C15", file=S, expect=None, old=_COPY,
          new="                        complete_variant = {\"a\": set(idx_map[\"a\"]), \"b\": set(idx_map[\"b\"])}"),
+    # algorithm replaced: all objects combined at once instead of the pairwise fold
+    dict(id="c15-ok-fold-as-product", prop="C15", file=S, expect=None, old=_FOLD_OLD, new='''        combinations = []
+        for choice in product(*term_spin_idx_maps):
+            merged = {"a": set(), "b": set()}
+            for part in choice:
+                merged["a"].update(part["a"])
+                merged["b"].update(part["b"])
+            if merged["a"].isdisjoint(merged["b"]) and merged not in combinations:
+                combinations.append(merged)
+        if not combinations:
+            continue
+'''),
+    # flag variable replaced by try/except on the lookup and set methods instead of operators
+    dict(id="c15-ok-filter-try-except", prop="C15", file=S, expect=None, old=_FILTER_OLD, new='''                for spin, idx in zip(block, obj_idx):
+                    try:
+                        wanted = target_idx_spin_map[idx]
+                    except KeyError:
+                        wanted = spin
+                    if wanted != spin:
+                        valid = False
+                        break
+                    idx_map.setdefault(spin, set()).add(idx)
+'''),
+    # variants produced by a nested generator, sets copied with the set constructor
+    dict(id="c15-ok-variant-generator", prop="C15", file=S, expect=None,
+         edits=[("                    variants = []\n                    for var in product(\"ab\", repeat=len(missing_contracted)):\n"
+                 "                        # copy the sets: the variants must not share them\n" + _COPY + "\n"
+                 "                        for spin, idx in zip(var, missing_contracted):\n"
+                 "                            complete_variant[spin].add(idx)\n"
+                 "                        variants.append(complete_variant)\n",
+                 "                    def spin_variants(base, free):\n"
+                 "                        for n_beta in range(len(free) + 1):\n"
+                 "                            for beta in itertools_combinations(free, n_beta):\n"
+                 "                                yield {\"a\": base[\"a\"] | (set(free) - set(beta)),\n"
+                 "                                       \"b\": base[\"b\"].union(beta)}\n"
+                 "                    variants = list(spin_variants(idx_map, missing_contracted))\n"),
+                ("from itertools import product\n", "from itertools import product\nfrom itertools import combinations as itertools_combinations\n")]),
+    # in-place revert replaced by copy-and-commit
+    dict(id="c15-ok-search-copy-commit", prop="C15", file=S, expect=None, old=_HVC_OLD, new='''        trial = {"a": variant["a"] | idx_map["a"],
+                 "b": variant["b"] | idx_map["b"]}
+        if len(tensor_idx_maps) > current_pos + 1 and \\
+                not _has_valid_combination(tensor_idx_maps, current_pos+1,
+                                           trial):
+            continue
+        for sp in "ab":
+            variant[sp].clear()
+            variant[sp].update(trial[sp])
+        return True
+'''),
+    # table of (sign, pairs) instead of two if blocks; bra and ket exchanged in the symmetric tensor
+    dict(id="c15-ok-coulomb-table", prop="C15", file=E, expect=None, old=_ERI_IFS, new='''            for sign, (bra, ket) in ((-1, ((q, r), (p, s))), (1, ((q, s), (p, r)))):
+                if all(x.spin == y.spin for x, y in (bra, ket)):
+                    res = res + sign * SymmetricTensor(
+                        name=tensor_names.coulomb, upper=bra, lower=ket,
+                        bra_ket_sym=1
+                    )
+                    expanded_coulomb = True
+'''),
+    # hard-coded table replaced by the rule that generates it; equal halves counted by beta
+    dict(id="c15-ok-eri-blocks-computed", prop="C15", file=E, expect=None,
+         edits=[('                return ("aaaa", "abab", "abba", "baab", "baba", "bbbb")',
+                 '                return tuple(p + q + r + s for p, q, r, s in product("ab", repeat=4)\n'
+                 '                             if (p, q) in ((r, s), (s, r)))'),
+                ('                     if block[:n].count("a") == block[n:].count("a")]', '                     if block[n:].count("b") == block[:n].count("b")]')]),
+    # blocks in another order, delta blocks generated
+    dict(id="c15-ok-blocks-reordered", prop="C15", file=E, expect=None,
+         edits=[('                return ("aaaa", "aabb", "bbaa", "bbbb")', '                return ("bbbb", "bbaa", "aabb", "aaaa")'),
+                ('            return ("aa", "bb")', '            return tuple(2 * sp for sp in "ab")')]),
+    # restricted branch: early exit inverted into a guarded block, renaming map built by a dict comprehension
+    dict(id="c15-ok-restricted-dictcomp", prop="C15", file=S, expect=None, old=_RESTR_OLD, new='''        used = frozenset(term.idx)
+        renaming = {i: get_symbols(i.name, "a")[0]
+                    for i in used if i.spin == "b"}
+        clashes = [old for old, new in renaming.items() if new in used]
+        if clashes:
+            raise RuntimeError("It is not safe to replace the beta indices "
+                               f"{clashes} in the term: {term}.")
+        restricted_expr += (term.sympy.subs(order_substitutions(renaming))
+                            if renaming else term.sympy)
+'''),
+    # spin map built with dict(zip) after the consistency check; while loop over the terms
+    dict(id="c15-ok-spin-map-zip", prop="C15", file=S, expect=None,
+         old="    target_idx_spin_map = {}\n    for idx, spin in zip(target_idx, target_spin):\n        if idx in target_idx_spin_map and target_idx_spin_map[idx] != spin:\n"
+             "            raise ValueError(f\"The index {idx} can not be assigned to alpha \"\n                             \"and beta spin simultaneously.\")\n        target_idx_spin_map[idx] = spin\n",
+         new="    target_idx_spin_map = dict(zip(target_idx, target_spin))\n    if any(target_idx_spin_map[idx] != spin\n           for idx, spin in zip(target_idx, target_spin)):\n"
+             "        raise ValueError(\"An index can not be assigned to alpha \"\n                         \"and beta spin simultaneously.\")\n"),
+    # expression level blocks: no sorting by the number of target indices (pure heuristic), set of open blocks
+    dict(id="c15-ok-blocks-unsorted", prop="C15", file=S, expect=None,
+         old="        term_idx_maps = sorted(term_idx_maps,\n                               key=lambda tpl: tpl[1], reverse=True)\n", new=""),
+    # the spin flipped block is not added explicitly (it is found on its own turn)
+    dict(id="c15-ok-blocks-no-flip", prop="C15", file=S, expect=None,
+         old="            allowed_blocks.add(\"\".join(\"a\" if spin == \"b\" else \"b\"\n                                       for spin in block))\n", new=""),
+    # NormalOrdered blocks by explicit recursion instead of itertools.product
+    dict(id="c15-ok-no-blocks-loop", prop="C15", file=E, expect=None,
+         old='        return tuple("".join(b) for b in product(*allowed_blocks))',
+         new='        blocks = [""]\n        for op_blocks in allowed_blocks:\n            blocks = [b + sp for b in blocks for sp in op_blocks]\n        return tuple(blocks)'),
+    # the per-object block filter extracted into a module level helper written with dict.get and set comprehensions
+    dict(id="c15-ok-extracted-block-helper", prop="C15", file=S, expect=None, edits=[
+        ('''            obj_idx = obj.idx
+            obj_spin_idx_maps = []
+            for block in allowed_blocks:
+                valid = True
+                idx_map = {"a": set(), "b": set()}
+''' + _FILTER_OLD + '''                if not valid:
+                    continue
+                if idx_map["a"] & idx_map["b"]:
+                    raise ValueError("Found invalid allowed spin block "
+                                     f"{block} for {obj}.")
+                obj_spin_idx_maps.append(idx_map)
+''', '''            obj_spin_idx_maps = _compatible_blocks(obj, allowed_blocks,
+                                                   target_idx_spin_map)
+'''),
+        ("def allowed_spin_blocks(expr: Expr, target_idx: str) -> tuple[str]:", '''def _compatible_blocks(obj, allowed_blocks, fixed_spins):
+    maps = []
+    for block in allowed_blocks:
+        pairs = list(zip(block, obj.idx))
+        if any(fixed_spins.get(idx, spin) != spin for spin, idx in pairs):
+            continue
+        idx_map = {sp: {idx for spin, idx in pairs if spin == sp}
+                   for sp in "ab"}
+        if not idx_map["a"].isdisjoint(idx_map["b"]):
+            raise ValueError("Found invalid allowed spin block "
+                             f"{block} for {obj}.")
+        maps.append(idx_map)
+    return maps
+
+
+def allowed_spin_blocks(expr: Expr, target_idx: str) -> tuple[str]:''')]),
+    # dispatch on the public type string instead of isinstance
+    dict(id="c15-ok-dispatch-type-str", prop="C15", file=E, expect=None, edits=[
+        ("        elif isinstance(obj, KroneckerDelta):  # delta\n            # spins have to be equal", "        elif self.type_as_str == 'delta':  # delta\n            # spins have to be equal"),
+        ("        elif isinstance(obj, FermionicOperator):  # create / annihilate", "        elif self.type_as_str in ('create', 'annihilate'):  # create / annihilate")]),
+    # indices and exponent read from base_and_exponent / upper + lower
+    dict(id="c15-ok-base-and-exponent", prop="C15", file=E, expect=None, edits=[
+        ("            p, q, r, s = self.idx  # <pq||rs>", "            base, exponent = self.base_and_exponent\n            p, q, r, s = base.upper + base.lower  # <pq||rs>"),
+        ("            res = Pow(res, self.exponent)\n        else:  # nothing to do", "            res = Pow(res, exponent)\n        else:  # nothing to do")]),
+    # keyword call in another order
+    dict(id="c15-ok-integrate-keywords", prop="C15", file=S, expect=None,
+         old="    expr = integrate_spin(expr, target_idx, target_spin)", new="    expr = integrate_spin(target_spin=target_spin, expr=expr, target_idx=target_idx)"),
+    # intermediates: temporaries removed, keywords
+    dict(id="c15-ok-itmd-blocks-inline", prop="C15", file="intermediates.py", expect=None,
+         old="        target_idx = self.default_idx\n        itmd = self.expand_itmd(indices=target_idx, fully_expand=False)\n        return allowed_spin_blocks(itmd.expand(), target_idx)",
+         new="        definition = self.expand_itmd(self.default_idx, fully_expand=False)\n        return allowed_spin_blocks(target_idx=self.default_idx,\n                                   expr=definition.expand())"),
 ]
